@@ -115,25 +115,24 @@ pub fn pool() -> Vec<(String, Message)> {
     legacy_family!(Msg1010, Msg1010T, Msg1010Sat);
     legacy_family!(Msg1011, Msg1011T, Msg1011Sat);
     legacy_family!(Msg1012, Msg1012T, Msg1012Sat);
+    // decoded from an all-ones payload (every bit before the abort point is a one), last satellite unencodable
     macro_rules! glo_failing_family {
-        ($v:ident, $t:ident, $s:ident, $max:expr) => {
+        ($v:ident, $num:literal, $max:expr) => {
             for n in 1..=$max {
-                let mut t = $t::default();
-                for i in 0..n {
-                    let mut s = $s::default();
-                    if i == n - 1 {
-                        s.glo_satellite_freq_chan_number = -8;
+                if let Message::$v(mut t) = with_bits($num, 0xFF, &[(12 + 12 + 27 + 1, 5, n as u64)]) {
+                    let k = t.satellites.len();
+                    if k > 0 {
+                        t.satellites[k - 1].glo_satellite_freq_chan_number = -8;
+                        out.push((format!("{} x{} all-ones, failing in the last satellite", stringify!($v), k), Message::$v(t)));
                     }
-                    t.satellites.push(s);
                 }
-                out.push((format!("{} x{} failing in the last satellite", stringify!($v), n), Message::$v(t)));
             }
         };
     }
-    glo_failing_family!(Msg1009, Msg1009T, Msg1009Sat, 12usize);
-    glo_failing_family!(Msg1010, Msg1010T, Msg1010Sat, 8usize);
-    glo_failing_family!(Msg1011, Msg1011T, Msg1011Sat, 8usize);
-    glo_failing_family!(Msg1012, Msg1012T, Msg1012Sat, 8usize);
+    glo_failing_family!(Msg1009, 1009, 12usize);
+    glo_failing_family!(Msg1010, 1010, 8usize);
+    glo_failing_family!(Msg1011, 1011, 8usize);
+    glo_failing_family!(Msg1012, 1012, 8usize);
     // MSM failing after the header: unrecognised signal, satellite mismatch
     if let Some((_, m)) = out.iter().find(|(n, _)| n == "1077 8x8").cloned() {
         let mut a = m.clone();
